@@ -38,6 +38,7 @@ SCRIPTS = {
                     "vnacal_layout.c", "vnacal_error.c", "vnacal_calibration.c", "vnacal_rfi.c", "vnacal_type_to_name.c",
                     "vnacommon_mrdivide.c", "vnacommon_lu.c", "vnacal_new_set_m_error.c", "vnacommon_spline.c"], 0, 18),
     "property": ("h_script_property", ["-DS_PROPERTY"], ["vnaproperty.c", "vnacal_layout.c"], 0, 14),
+    "property_list": ("h_script_property", ["-DS_PROPERTY", "-DS_PLIST"], ["vnaproperty.c", "vnacal_layout.c"], 0, 14),
     "addcal": ("h_script_addcal", ["-DS_ADDCAL", "-DVC_CAL_ALLOC=1", "-DVERIF_CUT_rfi_after_search=__CPROVER_assume(0)"],
                ["vnacal_calibration.c", "vnacal_free.c", "vnacal_find_calibration.c", "vnacal_parameter.c",
                 "vnacal_error.c", "vnacal_layout.c", "vnacal_rfi.c"], 0, 12),
